@@ -2,6 +2,7 @@ SPECIFICATION Spec
 CONSTANTS
   Groups = {"attester"}
   Pinned = TRUE
+  InPlace = FALSE
   MaxPar = 2
 INVARIANTS TypeOK Linearizable Disciplined
 CONSTRAINT Bounded
